@@ -138,18 +138,16 @@ def run(tier, seed, replay=None):
             s = {k: rec[k] for k in ("orig", "fmt", "ctx", "hunks", "chunks", "reparsed", "json",
                                      "cs", "has", "json_wf", "cs_wf")}
             slim.append(s)
-        n_ok, failures, ostates = core.eval_obs("MakeDiffObs", "MakeDiffObs.cfg", slim, scratch=sc)
-        for s, inv in failures:
-            rec = allrecs[slim.index(s)]
-            what = f"{inv} fails on make_diff/report output for {rec.get('name') or 'enumerated pair'} ctx={rec['ctx']}"
-            key = f"{inv}:{rec.get('name')}" if rec.get("name") else f"{inv}:{key_of(rec)}"
-            if inv == "CheckstyleOK" and not rec["cs_wf"]:
-                bad = sorted({hex(ord(c)) for c in rec["o"] + rec["f"]
-                              if ord(c) < 0x20 and c not in "\t\n\r"})
-                key = "checkstyle-illformed:control-chars" if bad else key
-                what += f" (document not well-formed; control characters {bad})"
-            v.violation(key, what, {"o": rec.get("o"), "f": rec.get("f"), "ctx": rec["ctx"],
-                                    "hunks": rec["hunks"]})
+        fails, ostates = core.eval_report("MakeDiffObs", "MakeDiffObs.cfg", slim, scratch=sc)
+        n_ok = len(slim) - len(fails)
+        for idx, f in fails:
+            rec = allrecs[idx]
+            for inv in f["fails"]:
+                what = (f"{inv} fails on make_diff/report output for "
+                        f"{rec.get('name') or 'enumerated pair'} ctx={rec['ctx']}")
+                key = f"{inv}:{rec.get('name')}" if rec.get("name") else f"{inv}:{key_of(rec)}"
+                v.violation(key, what, {"o": rec.get("o"), "f": rec.get("f"), "ctx": rec["ctx"],
+                                        "hunks": rec["hunks"]})
         for rec in allrecs[:3]:
             v.sample({"o": rec.get("o", "")[:80], "f": rec.get("f", "")[:80], "ctx": rec["ctx"],
                       "hunks": rec["hunks"][:2]})
@@ -159,7 +157,7 @@ def run(tier, seed, replay=None):
             bad = [json.loads(json.dumps(x)) for x in slim if x["hunks"]][:1]
             if bad:
                 bad[0]["hunks"][0]["ln"] += 1
-                _, f2, _ = core.eval_obs("MakeDiffObs", "MakeDiffObs.cfg", bad, scratch=sc)
+                f2, _ = core.eval_report("MakeDiffObs", "MakeDiffObs.cfg", bad, scratch=sc)
                 if not f2:
                     raise ToolError("binding self-test: corrupted observation accepted")
 
